@@ -254,6 +254,9 @@ def k2_exit_callbacks(res, tier):
             fd.replay = F22_REPLAY
 
 
+F48_REPLAY = dict(kind='lay', source='let c = chan(1);\nlet l = [1].iter().map(|x| <- c).list();\nprint(l);\n', bad_exit=[101, 134, -6], bad_re='Internal Error|panicked')
+
+
 @obligation('C18.K2.run_fun_signals', 'C18', programs=('vm',), also=('C16',))
 def k2_run_fun(res, tier):
     """Vm::run_fun / run_method with the callee summarised by the signal resolve_call answers with and the result of running it: no
@@ -267,13 +270,20 @@ def k2_run_fun(res, tier):
     opt = P.enum_def('Option')
     res.bounds = {'signal from resolve_call': 'Ok, OkReturn, RuntimeError, Exit', 'arguments': '0..2'}
     res.assumptions = ['resolve_call answers a callable with one of Ok / OkReturn / RuntimeError / Exit (ContextSwitch and friends come only from channel and launch instructions, never from a call)',
-                       'a RuntimeError comes with the error set on the fiber']
+                       'a RuntimeError comes with the error set on the fiber, or from the scheduler reporting a deadlock inside the nested run (no error set)']
     for fname in ('run_fun', 'run_method'):
         e = Engine(P, loop_bound=5, timeout_s=60, max_depth=40)
         W = VmWorld(e, P)
         W.havoc_objects(e)
         f = P.lookup('vm::Vm::' + fname)
-        e.model(r'^(fiber::)?Fiber::error$', lambda e_, a, c: EnumV('Option<Instance>', 1, {'Some': {0: Cell(Opaque('Instance', 'fiber_error'))}}, None, opt))
+        def m_fiber_error(e_, a, c):
+            # a RuntimeError result of the nested run comes with the error set on the fiber - except for the one the scheduler produces
+            # itself: "Fatal error deadlock." (execute returns RuntimeError without an error when the run queue is empty at a switch)
+            if e_.path_state.get('executed') == 'RuntimeError' and e_.fork_bool(z3.Bool('nested_run_deadlocked')):
+                e_.path_state['deadlock'] = True
+                return EnumV('Option<Instance>', 0, None, None, opt)
+            return EnumV('Option<Instance>', 1, {'Some': {0: Cell(Opaque('Instance', 'fiber_error'))}}, None, opt)
+        e.model(r'^(fiber::)?Fiber::error$', m_fiber_error)
         e.allow_havoc(r'^(fiber::)?Fiber::(ensure_stack|push|pop)$')
 
         def m_resolve(e_, a, c):
@@ -294,6 +304,7 @@ def k2_run_fun(res, tier):
             e_.add_constraint(z3.Or(*[kv == i for i in allowed]))
             k = e_.concretize(kv, allowed)
             vn = names[k]
+            e_.path_state['executed'] = vn
             pay = None
             if vn == 'Ok':
                 pay = {vn: {0: Cell(e_.fresh('laythe_core::value::Value', 'value'))}}
@@ -322,7 +333,7 @@ def k2_run_fun(res, tier):
                     raise
                 outcome = pe.kind
             s = e.path_state.get('signal')
-            e.check(outcome != 'internal_error', f'{fname}: no signal a callee can answer with ends in an internal error', {'signal': s})
+            e.check(outcome != 'internal_error', f'{fname}: no signal a callee can answer with ends in an internal error', {'signal': s, 'deadlock': bool(e.path_state.get('deadlock'))})
             mode = e.path_state.get('mode')
             if mode is not None:
                 # the fact C04.K2 builds on: the boundary handed to the nested run is the frame count of the calling code
@@ -338,6 +349,12 @@ def k2_run_fun(res, tier):
             return {'fn': fname, 'signal': s, 'outcome': outcome}
         results = e.explore(path)
         for r in results:
+            for lab, ok, info in list(r.checks):
+                if not ok and 'ends in an internal error' in lab and 'deadlock' in str(info) and 'True' in str(info):
+                    res.fail(f'C18.K2:{fname}: a deadlock reported inside a native callback ends in an internal error',
+                             'execute answers a deadlock inside the nested run with RuntimeError and no error set; to_call_result then hits "Error not set on vm executor": '
+                             'the deadlock report is followed by a host panic instead of a failing exit status', info, replay=F48_REPLAY)
+                    r.checks.remove((lab, ok, info))
             if r.kind in ('oob', 'unreachable', 'ub', 'diverge', 'depth', 'panic'):
                 res.fail(f'C18.K2:{fname}:{r.kind}', f'{fname}: path ends in {r.kind}: {str(r.info)[:200]}', {'path': str(r.info)})
         summarize_paths(res, e, results, lambda r: r.info if isinstance(r.info, dict) else None, key_prefix=f'C18.K2:{fname}:', unwind_ok=False)
